@@ -6,6 +6,23 @@ import os
 V = os.path.dirname(os.path.dirname(os.path.abspath(__file__)))
 
 CHECKS = {
+    "C19": dict(
+        engine="E3-scheduler",
+        category="model_checking",
+        text="Stateless model checking of the real ProgressIndicator under a deterministic scheduler: for 10 (thorough 13) caller bodies "
+             "(set_message while spinning, sleeps, Exception / KeyboardInterrupt / SystemExit, work on the other stream) x ANSI/plain x intervals, "
+             "every schedule of main x spinner thread with at most 3 (thorough 4) preemptions at the granularity of stream writes, sleeps, "
+             "Event.set/is_set, Thread.start/join, Lock acquire/release, and with at most 2 preemptions at the granularity of every source line of "
+             "progress_indicator.py, under a virtual clock in which timers may fire late. After every write the emitted bytes are interpreted on a "
+             "terminal emulator: each line is empty or exactly one frame; spinner stopped and joined on every exit path; end message last on normal "
+             "exit; no deadlock/livelock; the body's exception propagates unchanged. Manual mode: explicit-state BFS over start/advance/set_message/"
+             "finish x clock advances (depth 5/6) against the interval throttle and frame oracle.",
+        design_ref="2/C19, 1.3",
+        note="Trusted: mc/sched.py (baton scheduler; fakes of threading.Thread/Event/Lock/RLock and time planted into the module from outside), "
+             "mc/term.py emulator. Threads interleave only at the listed scheduling points; the GIL's bytecode-level interleavings inside one "
+             "source line are not modelled. One schedule is replayed twice per run and must give identical observations.",
+        technique="stateless model checking of the implementation: exhaustive schedule enumeration with iterative preemption bounding under a controlled scheduler and virtual clock; explicit-state BFS for manual mode",
+    ),
     "C10": dict(
         engine="E1-enumerator",
         category="exploration",
